@@ -11,6 +11,7 @@ behaviour and every rule must stay silent on the result.
   swap-minmax: arguments of every min / max call exchanged
   from-to-cast: every lossless integer `T::from(x)` written as `x as T`
   isnone-to-match: `x.is_none()` / `is_some()` / `is_ok()` / `is_err()` tested right away becomes a test of the discriminant
+  match-to-ifs: every `match n { a => .., b => .., _ => .. }` on an integer becomes `if n == a {..} else if n == b {..} else {..}`
   rename-locals: every named local / parameter gets another name
   anon-consts: named scalar constants become literals (`ClusterId::ROOT_DIR` as its value, `CMD17` as 0x11)
 usage: tools/metamorphic.py [kind ...]   (default: all, one after the other)"""
@@ -128,6 +129,36 @@ def transform(raw, kind):
                 nb["term"] = {"k": "SwitchInt", "discr": {"k": "move", "p": {"l": nl, "proj": []}}, "discr_ty": "isize", "targets": [[want, true_t]], "otherwise": false_t, "sp": sw["sp"]}
                 n += 1
         return n
+    if kind == "match-to-ifs":
+        INTS = ("u8", "u16", "u32", "u64", "usize")
+        for body in raw["bodies"]:
+            B = body["blocks"]
+            for bi in range(len(B)):
+                blk = B[bi]
+                t = blk["term"]
+                if blk.get("cleanup") or t["k"] != "SwitchInt" or t.get("discr_ty") not in INTS or t["discr"].get("k") not in ("copy", "move"):
+                    continue
+                # (the subject is copied once: it may be a projection such as `(r as Ok).0`)
+                dl = len(body["locals"])
+                body["locals"].append({"ty": t["discr_ty"], "tag": t["discr_ty"], "name": None})
+                blk["stmts"].append({"k": "Assign", "p": {"l": dl, "proj": []}, "rv": {"k": "Use", "op": {"k": "copy", "p": t["discr"]["p"]}}, "sp": t["sp"]})
+                ty = t["discr_ty"]
+                cur = blk
+                for k, (v, tb) in enumerate(t["targets"]):
+                    nl = len(body["locals"])
+                    body["locals"].append({"ty": "bool", "tag": "bool", "name": None})
+                    cur["stmts"].append({"k": "Assign", "p": {"l": nl, "proj": []}, "rv": {"k": "BinaryOp", "op": "Eq", "l": {"k": "copy", "p": {"l": dl, "proj": []}}, "r": {"k": "const", "ty": ty, "tag": ty, "val": v}}, "sp": t["sp"]})
+                    last = k == len(t["targets"]) - 1
+                    if last:
+                        nxt = t["otherwise"]
+                    else:
+                        B.append({"stmts": [], "term": None, "cleanup": False})
+                        nxt = len(B) - 1
+                    cur["term"] = {"k": "SwitchInt", "discr": {"k": "move", "p": {"l": nl, "proj": []}}, "discr_ty": "bool", "targets": [[0, nxt]], "otherwise": tb, "sp": t["sp"]}
+                    if not last:
+                        cur = B[nxt]
+                n += 1
+        return n
     if kind == "rename-locals":
         for body in raw["bodies"]:
             for i, l in enumerate(body["locals"]):
@@ -183,7 +214,7 @@ def transform(raw, kind):
 
 
 def main():
-    kinds = sys.argv[1:] or ["swap-eq", "mirror-cmp", "swap-comm", "rev-arms", "negate-if", "split-edges", "extra-copies", "swap-minmax", "from-to-cast", "isnone-to-match", "rename-locals", "anon-consts"]
+    kinds = sys.argv[1:] or ["swap-eq", "mirror-cmp", "swap-comm", "rev-arms", "negate-if", "split-edges", "extra-copies", "swap-minmax", "from-to-cast", "isnone-to-match", "match-to-ifs", "rename-locals", "anon-consts"]
     props = [json.loads(l)["id"] for l in open(os.path.join(V, "properties.jsonl"))]
     bad = 0
     for kind in kinds:
